@@ -21,10 +21,32 @@
 
 // C++ Standard Library includes
 #include <algorithm>
+#include <limits>
 #include <stdexcept>
 
 
 namespace celma::container {
+
+
+namespace {
+
+
+/// Returns the new size for the vector when the given position must be
+/// included.
+///
+/// @param[in]  pos  The position that must be accessible.
+/// @return  The new size to use for the vector.
+/// @throw  std::length_error if no size exists that includes the position.
+/// @since  x.y.z, 01.10.2026
+size_t grownSize( size_t pos) noexcept( false)
+{
+   if (pos == std::numeric_limits< size_t>::max())
+      throw std::length_error( "position is too big for a dynamic bitset");
+   return (pos + 1) * 1.5;
+} // grownSize
+
+
+} // namespace
 
 
 
@@ -192,7 +214,7 @@ DynamicBitset& DynamicBitset::set( size_t pos, bool value)
 {
 
    if (pos >= mData.size())
-      mData.resize( (pos + 1) * 1.5);
+      mData.resize( grownSize( pos));
 
    mData[ pos] = value;
 
@@ -224,7 +246,7 @@ DynamicBitset& DynamicBitset::reset( size_t pos)
 {
 
    if (pos >= mData.size())
-      mData.resize( (pos + 1) * 1.5);
+      mData.resize( grownSize( pos));
 
    mData[ pos] = false;
 
@@ -256,7 +278,7 @@ DynamicBitset& DynamicBitset::flip( size_t pos)
 {
 
    if (pos >= mData.size())
-      mData.resize( (pos + 1) * 1.5);
+      mData.resize( grownSize( pos));
 
    mData[ pos] = !mData[ pos];
 
@@ -369,7 +391,7 @@ DynamicBitset::reference DynamicBitset::operator []( size_t pos) noexcept( true)
 {
 
    if (pos >= mData.size())
-      mData.resize( (pos + 1) * 1.5);
+      mData.resize( grownSize( pos));
 
    return mData[ pos];
 } // DynamicBitset::operator []
